@@ -90,6 +90,30 @@ CORPUS_DEC = [
     ("-", "fdffffffffffffff7f" * 8 + "31"),               # ... wrapping to 4 in a 64-bit accumulator
 ]
 
+def claimed_expansion(payload_hex):
+    """bytes the payload claims to expand to (sum of run and literal lengths), computed here so that the cost of
+    the unary model does not depend on what the implementation under test makes of the payload"""
+    if payload_hex == "-":
+        return 0
+    try:
+        b = bytes.fromhex(payload_hex)
+    except ValueError:
+        return 0
+    i, total = 0, 0
+    while i < len(b) and total <= (1 << 40):
+        v, shift = 0, 0
+        while i < len(b):
+            c = b[i]; i += 1
+            v |= (c & 127) << shift; shift += 7
+            if c < 128 or shift > 70:
+                break
+        if v & 1:
+            total += v >> 2
+        else:
+            n = v >> 1
+            total += n; i += n
+    return total
+
 def alloc_limit(ctx):
     return 4 * ctx.consts.get("MAX_DECODED_LEN", 8454273) + (1 << 20)
 
@@ -186,6 +210,8 @@ def run(ctx):
         def small(op, line):
             i = counter[0]; counter[0] += 1
             if i >= first3 and (i - first3) % 2003 != 0:
+                return False
+            if claimed_expansion(op.split()[2]) > 200000:
                 return False
             m = PEAK.search(line)
             return (not m) or int(m.group(1)) <= 200000
